@@ -217,6 +217,16 @@ class Program:
     def function(self, path, qualname, rule="anchor"):
         m = self.module(path)
         f = m.functions.get(qualname)
+        if f is None and "." in qualname:
+            # a method the class no longer defines itself but inherits from a base of the package (moved to a mixin / base class):
+            # what runs for instances of the class is the method the MRO finds
+            cname, meth = qualname.rsplit(".", 1)
+            c = m.classes.get(cname)
+            if c is not None:
+                try:
+                    f = self.find_method(c, meth)
+                except Exception:
+                    f = None
         if f is None:
             raise AnalysisError(rule, f"{path}:{qualname}", "function/method not found (anchor vanished)")
         return f
